@@ -808,6 +808,65 @@ def put_race(kind):
                 queue_found=bool(queues), stacks=stacks)
 
 
+def start_order(kind):
+    """The start order of the project's example applications: the engine thread is started (data already waiting in the
+    receiver) a moment BEFORE the thread of the distributed component.  Afterwards run() has started, and the size
+    getters of the distributed component and of the decider still return."""
+    import threading
+    import traceback
+    sysm = System(kind, clock_rate=25)
+    stop = threading.Event()
+    for d in ["a", "b", "a", "h", "x", "y"]:
+        sysm.receiver.add_data(d)
+
+    def eng():
+        while not stop.is_set():
+            try:
+                sysm.engine.update()
+            except Exception:        # noqa (a change reported before run() has started is refused with an error)
+                _time.sleep(0.001)
+    te = threading.Thread(target=eng, name="engine", daemon=True)
+    te.start()
+    _time.sleep(0.3)
+    td = threading.Thread(target=sysm.dist.run, name="dist-main", daemon=True)
+    td.start()
+    t0 = _time.time()
+    while _time.time() - t0 < 8 and not getattr(sysm.dist, "_running", False):
+        _time.sleep(0.05)
+    running = bool(getattr(sysm.dist, "_running", False))
+    ok = [False]
+
+    def getters():
+        sysm.dist.size_outgoing()
+        sysm.decider.size()
+        ok[0] = True
+    tg = threading.Thread(target=getters, name="observer", daemon=True)
+    tg.start()
+    tg.join(4)
+    stacks = {}
+    if not (running and ok[0]):
+        for t in threading.enumerate():
+            fr = sys._current_frames().get(t.ident)
+            if fr is not None and t.name in ("engine", "dist-main", "observer"):
+                stacks[t.name] = ["%s:%d %s" % (os.path.basename(f.filename), f.lineno, f.name)
+                                  for f in traceback.extract_stack(fr)[-3:]]
+    stop.set()
+    return dict(kind=kind, run_started=running, getters_returned=ok[0], stacks=stacks)
+
+
+def start_order_failure(kind, r):
+    if r.get("timeout") or r.get("crashed") or "run_started" not in r:
+        return None
+    if r["run_started"] and r["getters_returned"]:
+        return None
+    return dict(signature="engine-started-before-run-blocks-both", detail=r.get("stacks"),
+                what="engine thread started 0.3 s before the distributed component's run() (data waiting in the receiver): run() %s, "
+                     "size getters %s.  Threads: %s" % ("started" if r["run_started"] else "never got started",
+                     "return" if r["getters_returned"] else "never return",
+                     "; ".join("[%s] %s" % (n, " <- ".join(reversed(st))) for n, st in sorted((r.get("stacks") or {}).items()))[:700]),
+                case=dict(mode="startorder", kind=kind))
+
+
 def put_race_failure(kind, r):
     if r.get("timeout") or r.get("crashed") or not r.get("queue_found"):
         return None
@@ -827,6 +886,18 @@ def put_race_failure(kind, r):
 def child_main(argv):
     global ActionNoop, ActionFeed
     mode, kind = argv[0], argv[1]
+    if mode == "--startorder":
+        import lockspy
+        lockspy.install()
+        ActionNoop, ActionFeed = _child_classes()
+        try:
+            out = start_order(kind)
+        except Exception as ex:      # noqa
+            import traceback
+            out = dict(crashed=True, error=traceback.format_exc()[-1500:])
+        sys.stdout.write("\n@@C08@@" + json.dumps(out, default=repr) + "\n")
+        sys.stdout.flush()
+        os._exit(0)
     if mode == "--putrace":
         try:
             out = put_race(kind)
@@ -982,6 +1053,7 @@ def run(ctx, res):
     recs = [_spawn(["--record", k], 400) for k in kinds_run]
     stress = _spawn(["--stress", "threads", "2.5" if ctx.quick else "12"], 240)
     races = [(k, _spawn(["--putrace", k], 90)) for k in ("threads", "threads+bounded")]
+    orders = [(k, _spawn(["--startorder", k], 90)) for k in ("blocking",)]
     recs = [_collect(p) for p in recs]
     for k, pt in races:
         r = _collect(pt)
@@ -992,6 +1064,16 @@ def run(ctx, res):
             res.failures.append(f)
         elif r.get("timeout") or r.get("crashed") or not r.get("queue_found"):
             res.errors.append("put-race scenario (%s) did not run: %s" % (k, json.dumps(r, default=repr)[:500]))
+
+    for k, pt in orders:
+        r = _collect(pt)
+        res.note_case(("startorder", k), True)
+        res.extra.setdefault("start_order", {})[k] = {x: r.get(x) for x in ("run_started", "getters_returned", "timeout", "crashed")}
+        f = start_order_failure(k, r)
+        if f:
+            res.failures.append(f)
+        elif r.get("timeout") or r.get("crashed"):
+            res.errors.append("start-order scenario (%s) did not run: %s" % (k, json.dumps(r, default=repr)[:500]))
 
     facts = {}            # key -> dict(kinds, count, site)
     acq = {}
@@ -1164,6 +1246,12 @@ def replay(obj):
     elif mode == "stress":
         print("free-running threads, wait-for watchdog (%s handler, %s s)" % (case["kind"], case.get("seconds", 8)))
         r = _collect(_spawn(["--stress", case["kind"], str(case.get("seconds", 8))], 60))
+    elif mode == "startorder":
+        r = _collect(_spawn(["--startorder", case["kind"]], 90))
+        f = start_order_failure(case["kind"], r)
+        print("engine thread started before the distributed component's run():", json.dumps({k: r.get(k) for k in ("run_started", "getters_returned", "timeout", "crashed")}))
+        print(f["what"] if f else "run() started and the getters return")
+        return 1 if f else 0
     elif mode == "putrace":
         r = _collect(_spawn(["--putrace", case["kind"]], 90))
         f = put_race_failure(case["kind"], r)
